@@ -7,6 +7,7 @@ import traceback
 HERE = os.path.dirname(os.path.abspath(__file__))
 sys.path.insert(0, HERE)
 import common  # noqa: E402
+sys.set_int_max_str_digits(0)
 
 
 def main():
